@@ -92,4 +92,9 @@ theorem exp_pdu_header_names_CommandStatus_Error : src_pdu_header_names_CommandS
 theorem exp_pdu_header_names__functions : src_pdu_header_names__functions = [
   "CommandStatus.String", "CommandStatus.Error"] := rfl
 
+theorem exp_pdu_address_Address_String : src_pdu_address_Address_String = [
+  "sig: func() string",
+  "if p.TON == 1 && p.NPI == 1 && len(p.No) > 0 && p.No[0] != '+' { return \"+\" + p.No }",
+  "return p.No"] := rfl
+
 end Smpp.Properties.SrcPduAccess
